@@ -2,7 +2,7 @@
    Global model: C03/ReduceModel.v (treeval); sc_search_bias and the constants are generated from /repo. *)
 From Coq Require Import ZArith List Bool.
 From ScV Require Import Base.CInt Gen.Consts Gen.Macros C03.ReduceModel C03.ReduceProofs C18.MacroProofs.
-From ScV Require Import MPI.Prog MPI.Sem MPI.SemFrame C03.ReduceSched.
+From ScV Require Import MPI.Prog MPI.Sem MPI.SemFrame MPI.SemPosted C03.ReduceSched C03.ReducePosted.
 Import ListNotations.
 Local Open Scope Z_scope.
 
@@ -94,20 +94,99 @@ Theorem C03_subtree_schedule : forall P m target, 0 <= m <= 30 -> 1 <= P <= 2 ^ 
 Proof. exact up. Qed.
 Print Assumptions C03_subtree_schedule.
 
-(* ---- sc_allreduce ----------------------------------------------------------------------------------------------
-   FULL STATEMENT (not provable as it stands, see below):
-     forall P, 1 <= P <= 2 ^ 30 -> exists n, run n (all_start P) (all_end P) /\ <every schedule ...>   where
-     all_start P = rank r runs `reduce_prog P (maxlevel P) true 0 r`  (the co-simulated program, doall = true).
-   That program lists the actions of the all-to-all window in the order in which the C code POSTS them:
-   Irecv(peer_0); Isend(peer_0); Irecv(peer_1); ... , all completed later by Waitall.  MPI/Sem.v reads every Recv
-   as a blocking receive, and read that way the system is stuck from the start (C03_allreduce_posting_order_blocks,
-   P = 2).  What IS proved: the statement for the program in canonical window order (allreduce_prog_w: in the
-   all-to-all window all sends, then the receives - the `phase` convention of MPI/Prog.v that the allgather
-   programs use), and that allreduce_prog_w is the posting-order program with sends moved in front of receives
-   posted before them (C03_allreduce_window_form; nbeq is the congruence closure of that single swap, which is
-   sound for non-blocking receives).  Missing for the full statement: a semantics in which a posted receive does
-   not block the sends posted after it in the same window, with its own confluence theorem. *)
-Theorem C03_allreduce_every_schedule_partial : forall P, 1 <= P <= 2 ^ 30 ->
+(* ==== sc_allreduce: the LITERAL per-rank programs under the POSTED-RECEIVE semantics ==========================
+   all_start P: rank r (0 <= r < P) runs `reduce_prog P (maxlevel P) true 0 r` - exactly the program that is extracted
+   (Extract/Extract_c03.v) and co-simulated against the trace of the real sc_allreduce on every run (doall = true,
+   working target 0); all channels empty (C03_allreduce_start_is_literal).  That program lists the actions of the
+   all-to-all window in the order in which sc_reduce_alltoall POSTS them: Irecv(peer_0); Isend(peer_0);
+   Irecv(peer_1); Isend(peer_1); ...; then MPI_Waitall on the receives, the combination loops, MPI_Waitall on the sends.
+
+   Semantics: step_p / run_p of MPI/SemPosted.v - the state space of MPI/Sem.v (one program per rank, buffered sends,
+   FIFO channels per (source, destination, tag)) with posted receives.  A rank may
+   (S) issue its next send although receives posted before it are pending, provided destination, tag and payload
+       are the same for every reply of those receives (a send of received data waits for the data); sends are
+       issued in posting order;
+   (R) complete any posted receive whose message has arrived, behind pending receives for OTHER (source, tag) keys
+       only; the reply goes into the program, the rest of the program (what follows Waitall in C) runs when all
+       receives in front of it are complete.
+   With no pending receive in front, (S) and (R) are the steps of Sem.v: every schedule of the blocking semantics is
+   a schedule of the posted one (C03_posted_extends_blocking).  This is the faithful reading of
+   Irecv/Isend/Waitall: a posted Irecv does not hold back the requests posted after it, and Waitall hands the
+   payloads to the computation when all receives are complete.  Read with blocking receives the literal system is
+   stuck from the start (C03_allreduce_posting_order_blocks, P = 2); under step_p it is not
+   (C03_allreduce_posting_order_runs).
+
+   THEOREM.  For every communicator size 1 <= P <= 2^30 there is n such that
+   (1) some schedule takes all_start P in n steps to all_end P: every rank r < P has returned
+       `sym_reduce_result P`, the symbolic value of the global tree model - the same on all ranks, the one sc_reduce
+       delivers to any target - and all channels are empty (C03_allreduce_final_state); and for EVERY schedule prefix
+       `run_p m (all_start P) s'`:
+   (2) m <= n and s' can be completed to all_end P in exactly n - m steps (termination),
+   (3) if s' is final it IS all_end P (same result under every message timing and every completion order),
+   (4) s' is final or some rank can move (no reachable state is stuck). *)
+Theorem C03_allreduce_every_schedule : forall P, 1 <= P <= 2 ^ 30 ->
+  exists n : nat,
+    run_p n (all_start P) (all_end P) /\
+    forall m s', run_p m (all_start P) s' ->
+      (m <= n)%nat /\ run_p (n - m) s' (all_end P) /\
+      (final s' -> s' = all_end P /\ m = n) /\
+      (final s' \/ exists r s'', step_p s' r s'').
+Proof. exact allreduce_all_schedules. Qed.
+Print Assumptions C03_allreduce_every_schedule.
+
+Theorem C03_allreduce_start_is_literal : forall P,
+  (forall r, 0 <= r < P -> pr (all_start P) r = reduce_prog P (maxlevel P) true 0 r) /\
+  (forall r, ~ 0 <= r < P -> pr (all_start P) r = Ret []) /\ (forall a b t, ch (all_start P) a b t = []).
+Proof. exact all_start_spec. Qed.
+Print Assumptions C03_allreduce_start_is_literal.
+
+(* the posted semantics in general: ONE terminating schedule implies that EVERY schedule terminates in the same
+   final state after the same number of steps and that no reachable state is stuck (diamond property of step_p for
+   two ranks and for two different steps of one rank) *)
+Theorem C03_posted_semantics_confluent : forall s0 f n, run_p n s0 f -> final f ->
+  forall m s', run_p m s0 s' ->
+    (m <= n)%nat /\ run_p (n - m) s' f /\ (final s' -> s' = f /\ m = n) /\ (final s' \/ exists r s'', step_p s' r s'').
+Proof. exact one_schedule_all_schedules_p. Qed.
+Print Assumptions C03_posted_semantics_confluent.
+
+Theorem C03_posted_extends_blocking :
+  (forall s r s', step s r s' -> step_p s r s') /\ (forall n s s', run n s s' -> run_p n s s').
+Proof. split; [exact step_in_step_p|exact run_in_run_p]. Qed.
+Print Assumptions C03_posted_extends_blocking.
+
+(* a send whose destination, tag or payload depends on the reply of the receive in front of it is NOT issued early:
+   a blocking receive followed by a send of what was received (the recursive levels of sc_reduce) still blocks *)
+Theorem C03_posted_send_needs_independence : forall s0 t0 (D T : payload -> Z) (F : payload -> payload) K d t m,
+  canS (Do (Recv s0 t0) (fun v => Do (Send (D v) (T v) (F v)) (K v))) d t m -> forall v, D v = d /\ T v = t /\ F v = m.
+Proof. exact canS_needs_independence. Qed.
+Print Assumptions C03_posted_send_needs_independence.
+
+(* programs in posting order and programs with the sends of a window moved in front of the receives posted before
+   them (nbeq, rank by rank; same channels): every terminating schedule of the second system is replayed step by
+   step by the first, to the SAME final state, and then all schedules of the first system end there *)
+Theorem C03_posting_order_same_result : forall s s' n f,
+  (forall r, nbeq (pr s r) (pr s' r)) /\ (forall a b t, ch s a b t = ch s' a b t) -> run_p n s' f -> final f ->
+  run_p n s f /\ terminal_for_p s f n.
+Proof. exact posting_order_same_result. Qed.
+Print Assumptions C03_posting_order_same_result.
+
+(* sc_reduce under the posted semantics (its windows have receives only; the witness schedule of Sem.v is one of
+   step_p, confluence of step_p gives all schedules of the larger set) *)
+Theorem C03_reduce_every_posted_schedule : forall P target, 1 <= P <= 2 ^ 30 -> 0 <= target < P ->
+  exists (n : nat) (f : gs),
+    run_p n (red_start P target) f /\ final f /\
+    pr f target = Ret (sym_reduce_result P) /\
+    (forall a b t, ch f a b t = []) /\
+    forall m s', run_p m (red_start P target) s' ->
+      (m <= n)%nat /\ run_p (n - m) s' f /\
+      (final s' -> s' = f /\ m = n) /\
+      (final s' \/ exists r s'', step_p s' r s'').
+Proof. exact reduce_all_posted_schedules. Qed.
+Print Assumptions C03_reduce_every_posted_schedule.
+
+(* the same statement for the program with the all-to-all window in canonical order (all sends, then the receives)
+   under the BLOCKING semantics of Sem.v - the witness schedule that C03_allreduce_every_schedule replays *)
+Theorem C03_allreduce_window_every_schedule : forall P, 1 <= P <= 2 ^ 30 ->
   exists n : nat,
     run n (all_start_w P) (all_end P) /\
     forall m s', run m (all_start_w P) s' ->
@@ -115,7 +194,7 @@ Theorem C03_allreduce_every_schedule_partial : forall P, 1 <= P <= 2 ^ 30 ->
       (final s' -> s' = all_end P /\ m = n) /\
       (final s' \/ exists r s'', step s' r s'').
 Proof. exact allreduce_w_all_schedules. Qed.
-Print Assumptions C03_allreduce_every_schedule_partial.
+Print Assumptions C03_allreduce_window_every_schedule.
 
 (* all_end: EVERY rank has returned the same symbolic value, the one the target of sc_reduce returns, and no
    message is left in any channel *)
@@ -133,6 +212,12 @@ Theorem C03_allreduce_posting_order_blocks :
   (forall r s', ~ step s0 r s') /\ ~ final s0.
 Proof. exact allreduce_posting_order_blocks. Qed.
 Print Assumptions C03_allreduce_posting_order_blocks.
+
+Theorem C03_allreduce_posting_order_runs :
+  let s0 := mkgs (fun r => if (0 <=? r) && (r <? 2) then reduce_prog 2 (maxlevel 2) true 0 r else Ret []) (fun _ _ _ => []) in
+  (exists s', step_p s0 0 s') /\ (exists s', step_p s0 1 s').
+Proof. exact allreduce_posting_order_runs. Qed.
+Print Assumptions C03_allreduce_posting_order_runs.
 
 Example C03_schedule_instance :
   (exists n f, run n (red_start 13 7) f /\ final f /\ pr f 7 = Ret (sym_reduce_result 13) /\ (forall a b t, ch f a b t = [])) /\
